@@ -120,7 +120,8 @@ def run(module, cfg, spec_dir, *, workers=4, timeout=600, simulate=None, depth=N
         if "Error: Deadlock reached" in line:
             res.deadlock = True
             in_trace = True
-        if "Error: The postcondition" in line or "postcondition" in line.lower() and "violated" in line.lower():
+        low = line.lower()
+        if "postcondition" in low and ("violated" in low or "is false" in low or line.startswith("Error:")):
             res.postcondition_failed = True
         if line.startswith("Error:") and not (res.invariant_violated or res.property_violated or res.deadlock
                                               or res.postcondition_failed):
